@@ -36,6 +36,11 @@ def rejected_calls(w, rng):
             for bad in BAD_NAMES:
                 out.append('mk $x %s %s %s %s%s' % (kind, b.slot, S(bad), S('t'), extra))
             out.append('mk $x %s %s %s %s%s' % (kind, b.slot, S('fresh-name-%s' % kind), S(''), extra))
+        # createDataArray(name, type, data, dtype) with data of a class the element type cannot store: the array made for it goes again
+        for k, (dt, cls) in enumerate((('String', 'd'), ('Double', 's'), ('Int32', 's'), ('Bool', 'd'), ('Bool', 's'), ('Char', 'd'), ('Opaque', 'd'), ('String', 'd'))):
+            out.append('mk $x A %s %s %s %s [%d] %s' % (b.slot, S('fresh-filled-%d' % k), S('t'), dt, rng.choice([0, 1, 3]), cls))
+        exa = w.alive('A', parent=b.slot)
+        if exa: out.append('mk $x A %s %s %s Double [2] d' % (b.slot, S(exa[0].name), S('t')))
         # unsupported element type, duplicate data frame columns
         out.append('mk $x A %s %s %s Opaque [2]' % (b.slot, S('fresh-opaque'), S('t')))
         out.append('mk $x A %s %s %s Nothing [2]' % (b.slot, S('fresh-nothing'), S('t')))
